@@ -799,6 +799,8 @@ class Engine:
         if m:
             args = [self.operand(fr, x) for x in split_top(m.group(3))] if m.group(3) else []
             return E(m.group(2), args)
+        if re.match(r'^[A-Z]\w*$', rv):        # bare unit variant of an imported enum (e.g. `ConstraintHasOne`)
+            return E(rv)
         raise NotImplementedError('rvalue ' + rv)
 
     # ---------------------------------------------------------------- running
